@@ -77,6 +77,9 @@ def map (f : α → β) (l : List α) : List β := l.map f
 
 def reduce (f : β → α → β) (init : β) (l : List α) : β := l.foldl f init
 
+/-- `xslices.Equal(a, b)` = `slices.Equal` (documented behaviour: same length and equal elements). -/
+def equal [DecidableEq α] (a b : List α) : Bool := decide (a = b)
+
 /-- `xslices.Repeat(s, n)`; `none` = `make` panics for negative `n`. -/
 def repeat_ (a : α) (n : Int) : Option (List α) := if n < 0 then none else some (List.replicate n.toNat a)
 
